@@ -692,22 +692,39 @@ def check_mesh_of_length(part, k, patt, limit=None):
     return cnt
 
 
+def sparse_numbers(k, low):
+    """Sorted: every number below `low`, every number with at most 2 bits set or at most 2 bits
+    clear among the (k+1)^2, and the prefixes 2^i - 1."""
+    nbits = (k + 1) ** 2
+    full = (1 << nbits) - 1
+    nums = set(range(min(low, full + 1)))
+    for c in range(0, 3):
+        for bits in itertools.combinations(range(nbits), c):
+            v = sum(1 << b for b in bits)
+            nums.add(v)
+            nums.add(full ^ v)
+    for i in range(nbits + 1):
+        nums.add((1 << i) - 1)
+    return sorted(nums)
+
+
 def shard_mesh(shard):
     kind = shard[0]
     Perm, MeshPatt = _P(), _M()
     part = Partial()
-    if kind == "all":
+    if kind in ("all", "sparse+of_length"):
         _, perm = shard
         k = len(perm)
         total = 1 << ((k + 1) ** 2)
         seen = set()
-        for r in range(total):
+        nums = range(total) if kind == "all" else sparse_numbers(k, 4096)
+        for r in nums:
             bij, lay = mesh_case(Perm, MeshPatt, perm, r, seen)
             report_mesh(part, perm, r, bij, lay)
-        if len(seen) != total:
+        if len(seen) != len(nums):
             part.violation("mesh_bij", {"perm": perm, "r": None},
-                           {"distinct_shadings": len(seen), "expected": total})
-        part.add(total, total - 1)
+                           {"distinct_shadings": len(seen), "expected": len(nums)})
+        part.add(len(nums), len(nums) - 1)
         cnt = check_mesh_of_length(part, k, perm)
         part.add(1, 1)
         part.bump("mesh_of_length_items", cnt)
@@ -718,18 +735,9 @@ def shard_mesh(shard):
         # k = 4: all numbers with <= 2 or >= 23 of the 25 bits set, and the prefixes 2^i - 1
         _, perm = shard
         k = len(perm)
-        nbits = (k + 1) ** 2
-        full = (1 << nbits) - 1
-        nums = set()
-        for c in range(0, 3):
-            for bits in itertools.combinations(range(nbits), c):
-                v = sum(1 << b for b in bits)
-                nums.add(v)
-                nums.add(full ^ v)
-        for i in range(nbits + 1):
-            nums.add((1 << i) - 1)
+        nums = sparse_numbers(k, 0)
         seen = set()
-        for r in sorted(nums):
+        for r in nums:
             bij, lay = mesh_case(Perm, MeshPatt, perm, r, seen)
             report_mesh(part, perm, r, bij, lay)
         part.add(len(nums), len(nums) - 1)
@@ -791,49 +799,57 @@ def hidden_state():
     containers at module level / class level of the pattern modules, and the default arguments,
     function attributes and closure cells of every function of the classes defined there."""
     import collections
+    import types
     out = []
     cont = (list, dict, set, collections.deque)
     for name in MODULES:
         mod = sys.modules.get(name)
         if mod is None:
             continue
-        for k, v in sorted(vars(mod).items()):
-            if k.startswith("__"):
-                continue
+        for k, v in vars(mod).items():
             if isinstance(v, cont):
-                out.append((name, k, freeze(v)))
-            elif isinstance(v, type) and getattr(v, "__module__", None) == name:
-                for ck, cv in sorted(vars(v).items()):
-                    if ck.startswith("__") and ck.endswith("__") and not callable(cv):
+                if not k.startswith("__"):
+                    out.append((name, k, freeze(v)))
+            elif isinstance(v, type) and v.__module__ == name:
+                cname = v.__name__
+                for ck, cv in vars(v).items():
+                    t = type(cv)
+                    if t is types.FunctionType:
+                        f = cv
+                    elif t is classmethod or t is staticmethod:
+                        f = cv.__func__
+                        if type(f) is not types.FunctionType:
+                            f = getattr(f, "__wrapped__", f)
+                            if type(f) is not types.FunctionType:
+                                continue
+                    elif isinstance(cv, cont):
+                        if not ck.startswith("__"):
+                            out.append((name, cname + "." + ck, freeze(cv)))
                         continue
-                    if isinstance(cv, cont):
-                        out.append((name, v.__name__ + "." + ck, freeze(cv)))
+                    else:
                         continue
-                    f = getattr(cv, "__func__", cv)
-                    f = getattr(f, "__wrapped__", f)
-                    if hasattr(f, "__code__"):
-                        d = getattr(f, "__defaults__", None)
-                        kd = getattr(f, "__kwdefaults__", None)
-                        fd = getattr(f, "__dict__", None)
-                        cl = getattr(f, "__closure__", None)
-                        item = []
-                        if d and any(isinstance(x, cont) for x in d):
-                            item.append(("defaults", freeze(list(d))))
-                        if kd and any(isinstance(x, cont) for x in kd.values()):
-                            item.append(("kwdefaults", freeze(kd)))
-                        if fd:
-                            item.append(("attrs", freeze({a: b for a, b in fd.items()
-                                                          if a != "__wrapped__"})))
-                        if cl:
-                            cells = []
-                            for c in cl:
-                                try:
-                                    cells.append(freeze(c.cell_contents))
-                                except ValueError:
-                                    cells.append("empty")
-                            item.append(("closure", tuple(cells)))
-                        if item:
-                            out.append((name, v.__name__ + "." + ck, tuple(item)))
+                    d, kd, cl, fd = f.__defaults__, f.__kwdefaults__, f.__closure__, f.__dict__
+                    if d is None and kd is None and cl is None and not fd:
+                        continue
+                    item = []
+                    if d and any(isinstance(x, cont) for x in d):
+                        item.append(("defaults", freeze(list(d))))
+                    if kd and any(isinstance(x, cont) for x in kd.values()):
+                        item.append(("kwdefaults", freeze(kd)))
+                    if fd:
+                        item.append(("attrs", freeze({a: b for a, b in fd.items()
+                                                      if a != "__wrapped__"})))
+                    if cl:
+                        cells = []
+                        for c in cl:
+                            try:
+                                cells.append(freeze(c.cell_contents))
+                            except ValueError:
+                                cells.append("empty")
+                        item.append(("closure", tuple(cells)))
+                    if item:
+                        out.append((name, cname + "." + ck, tuple(item)))
+    out.sort()
     return tuple(out)
 
 
@@ -935,6 +951,11 @@ class StdHistory:
                      + [("text", k, p) for k in range(nk) for p in range(len(self.patts))]
                      + [("inv", k) for k in range(nk)]
                      + [("fromint", i) for i in range(len(self.ints))])
+        if init == "full":
+            # 10 000 filler calls per replay: the menu is cut down to the operations that fetch
+            # (and so possibly evict and rebuild) an entry and to one search on the fetched object
+            self.menu = [op for op in self.menu
+                         if op[0] in ("std", "fromint") or (op[0] == "patt" and op[2] == 0)]
 
     def enabled(self, canon, hist):
         return self.menu
@@ -1281,15 +1302,18 @@ def run(ctx, only=None):
         ctx.section("gen", evaluations=ctx.evals - e0)
     if want("first"):
         e0 = ctx.evals
-        K7 = RC.offset(8) + 1
-        ks = list(range(0, K7 + 1))
-        bound = "every k = 0..%d (= |S<=7| + 1)" % K7
-        if not quick:
-            K8 = RC.offset(9) + 1
-            marks = {RC.offset(m) + d for m in range(10) for d in (-2, -1, 0, 1, 2)}
+        K6, K7, K8 = RC.offset(7) + 1, RC.offset(8) + 1, RC.offset(9) + 1
+        marks = {RC.offset(m) + d for m in range(10) for d in (-2, -1, 0, 1, 2)}
+        if quick:
+            ks = list(range(0, K6 + 1))
+            ks += [k for k in range(K6 + 1, K7 + 1) if k % 8 == 0 or k in marks]
+            bound = ("every k = 0..%d (= |S<=6| + 1); every k = %d..%d (= |S<=7| + 1) that is a "
+                     "multiple of 8 or within 2 of a length boundary" % (K6, K6 + 1, K7))
+        else:
+            ks = list(range(0, K7 + 1))
             ks += [k for k in range(K7 + 1, K8 + 1) if k % 8 == 0 or k in marks]
-            bound += "; every k = %d..%d that is a multiple of 8 or within 2 of a length boundary" \
-                % (K7 + 1, K8)
+            bound = ("every k = 0..%d (= |S<=7| + 1); every k = %d..%d (= |S<=8| + 1) that is a "
+                     "multiple of 8 or within 2 of a length boundary" % (K7, K7 + 1, K8))
         nsh = 64 if quick else 192
         shards = [(ks[i::nsh][::-1], 8 if quick else 9) for i in range(nsh)]
         ctx.pmap(shard_first, [s for s in shards if s[0]])
@@ -1360,19 +1384,24 @@ def run(ctx, only=None):
         ctx.section("validated", evaluations=ctx.evals - e0)
     if want("mesh"):
         e0 = ctx.evals
-        shards = [("all", p) for k in (3, 2, 1, 0) for p in RC.lex_perms(k)]
+        shards = [("sparse+of_length" if quick else "all", p) for p in RC.lex_perms(3)]
+        shards += [("all", p) for k in (2, 1, 0) for p in RC.lex_perms(k)]
         shards += [("of_length", k) for k in (0, 1, 2)]
         shards += [("reject", 3)]
         if not quick:
             shards = [("of_length", 3)] + shards
             shards += [("sparse", p) for p in RC.lex_perms(4)]
         ctx.pmap(shard_mesh, shards)
-        ctx.bounds["mesh"] = ("every number 0..2^((k+1)^2)-1 for every pattern of length k <= 3: "
-                              "unrank, rank, of_length(k, patt); of_length(k) for k <= %d; "
-                              "rejection of -2, -1, 2^N, 2^N+1, 2^(N+1) for k <= 3%s"
-                              % (2 if quick else 3,
-                                 "" if quick else "; k = 4: all numbers with <= 2 or >= 23 bits "
-                                 "set and 2^i - 1, all 24 patterns"))
+        ctx.bounds["mesh"] = (
+            "every pattern of length k <= 3: of_length(k, patt) item by item (all 2^((k+1)^2) "
+            "numbers); unrank/rank/rank-of-constructed/unrank(rank) for every number when k <= %d"
+            "%s; of_length(k) for k <= %d; rejection of -2, -1, 2^N, 2^N+1, 2^(N+1) for k <= 3%s"
+            % (2 if quick else 3,
+               ", for k = 3 every number < 4096, every number with <= 2 bits set or <= 2 bits "
+               "clear, and 2^i - 1" if quick else "",
+               2 if quick else 3,
+               "" if quick else "; k = 4: every number with <= 2 bits set or clear and 2^i - 1, "
+               "all 24 patterns"))
         ctx.section("mesh", evaluations=ctx.evals - e0)
     if want("history"):
         e0 = ctx.evals
@@ -1396,8 +1425,9 @@ def run(ctx, only=None):
                     evaluations=ctx.evals - e0)
         if want("fresh"):
             samples = [s for r in res for s in r[3]]
-            samples = [s for s in samples if s[1] != "full"][:16] + \
-                      [s for s in samples if s[1] == "full"][:4]
+            nf = (6, 2) if quick else (16, 4)
+            samples = [s for s in samples if s[1] != "full"][:nf[0]] + \
+                      [s for s in samples if s[1] == "full"][:nf[1]]
             ctx.pmap(shard_fresh, samples)
             ctx.traces += len(samples)
             ctx.bounds["fresh"] = "%d explored histories re-run in a fresh interpreter" % len(samples)
@@ -1495,12 +1525,12 @@ def replay(ctx, rec):
         if case["r"] is None:
             k = len(perm)
             seen = set()
-            for r in range(1 << ((k + 1) ** 2)):
+            for r in (range(1 << ((k + 1) ** 2)) if k <= 2 else sparse_numbers(k, 4096)):
                 try:
                     seen.add(frozenset(MeshPatt.unrank(Perm(perm), r).shading))
                 except Exception:  # noqa
                     pass
-            if len(seen) != 1 << ((k + 1) ** 2):
+            if len(seen) != (1 << ((k + 1) ** 2) if k <= 2 else len(sparse_numbers(k, 4096))):
                 part.violation("mesh_bij", case, {"distinct_shadings": len(seen)})
         else:
             bij, lay = mesh_case(Perm, MeshPatt, perm, case["r"])
